@@ -128,6 +128,42 @@ class _MethodCaller:
     kwargs: dict
 
 
+@dataclass(eq=False)
+class LazyV:
+    """map(f, it) / filter(p, it): `f` / `p` run only when an item is asked for"""
+    kind: str
+    fn: Any
+    src: Any  # IterV | GenV | LazyV
+    node: Any = None
+
+    def pull(self, it, n, fr):
+        """(True, item) or (False, None)"""
+        while True:
+            ok, x = _pull(self.src, it, n, fr)
+            if not ok:
+                return False, None
+            if self.kind == "map":
+                return True, it.call(self.fn, [x], {}, n, fr)
+            keep = it.truth(x, n, fr) if self.fn is None else it.truth(it.call(self.fn, [x], {}, n, fr), n, fr)
+            if keep:
+                return True, x
+
+
+def _pull(src, it, n, fr):
+    if isinstance(src, LazyV):
+        return src.pull(it, n, fr)
+    if isinstance(src, IterV):
+        if src.pos < len(src.items):
+            src.pos += 1
+            return True, src.items[src.pos - 1]
+        return False, None
+    if isinstance(src, GenV):
+        if src.items:
+            return True, src.items.pop(0)
+        return False, None
+    raise AnalysisError("lazy iteration over an unsupported source")
+
+
 class _Identity:
     """a decorator that returns its argument (functools.wraps(f))"""
 
@@ -693,6 +729,20 @@ class Interp:
                             new.append(FamItem(it.domain, x))
                         fr.env[k] = new
             return
+        if isinstance(it, LazyV):
+            while True:
+                ok, x = it.pull(self, st.iter, fr)
+                if not ok:
+                    if st.orelse:
+                        self.exec_block(st.orelse, fr)
+                    return
+                self.assign(st.target, x, fr)
+                try:
+                    self.exec_block(st.body, fr)
+                except _Break:
+                    return
+                except _Continue:
+                    continue
         for x in self.iterate(it, st.iter, fr):
             if isinstance(x, FamItem):
                 self.assign(st.target, x.term, fr)
@@ -744,6 +794,13 @@ class Interp:
             rest = it.items[it.pos:]
             it.pos = len(it.items)
             return rest
+        if isinstance(it, LazyV):
+            out = []
+            while True:
+                ok, x = it.pull(self, node, fr)
+                if not ok:
+                    return out
+                out.append(x)
         if self.world is not None:
             r = self.world.iterate(self, it, node)
             if r is not None:
@@ -1576,6 +1633,22 @@ class Interp:
         memo[m.fq] = val
         return val
 
+    def find_method(self, cls_fq: str, name: str):
+        """the function a method name of a repository class resolves to: a `def` in the MRO, or
+        a class attribute that evaluates to a function (`__iter__ = Other.__iter__`)"""
+        if cls_fq not in self.prog.classes:
+            return None
+        for c in self.prog.mro(cls_fq):
+            ci = self.prog.classes[c]
+            if name in ci.methods:
+                return ci.methods[name]
+            if name in ci.attrs:
+                v = self.eval_class_attr(ci.attrs[name], c)
+                if isinstance(v, FuncV):
+                    return v.fi
+                return None
+        return None
+
     def _prop_get(self, p: "PropV", o, attr, node, fr):
         def compute():
             return self.call(p.fget, [o], {}, node, fr)
@@ -1586,14 +1659,14 @@ class Interp:
     def eval_class_attr(self, ca, owner):
         fr = Frame(None, {})
         # class attributes are sets/tuples of strings or constants
-        if isinstance(ca, ast.Set):
-            return frozenset(e.value for e in ca.elts if isinstance(e, ast.Constant))
+        if isinstance(ca, ast.Set) and all(isinstance(e, ast.Constant) for e in ca.elts):
+            return frozenset(e.value for e in ca.elts)
         if isinstance(ca, ast.Call) and dotted_name(ca.func) == "set" and not ca.args:
             return frozenset()
         if isinstance(ca, ast.Constant):
             return ca.value
-        if isinstance(ca, (ast.Tuple, ast.List)):
-            return tuple(e.value for e in ca.elts if isinstance(e, ast.Constant))
+        if isinstance(ca, (ast.Tuple, ast.List)) and all(isinstance(e, ast.Constant) for e in ca.elts):
+            return tuple(e.value for e in ca.elts)
         if isinstance(ca, ast.Dict) and not ca.keys:
             # one dict per class, shared by all instances (per interpreter = per process)
             memo = self.__dict__.setdefault("_classvals", {})
@@ -1718,7 +1791,10 @@ class Interp:
         for p in pairs:
             if isinstance(p, FamItem):
                 raise self.err(n, "dict comprehension over an abstract collection")
-            d[p[0]] = p[1]
+            try:
+                d[p[0]] = p[1]
+            except TypeError:
+                raise Raised("TypeError", n, fr.fi, f"unhashable key {type(p[0]).__name__}")
         if self.world is not None:
             self.world.on_new_container(self, d, n)
         return d
@@ -1853,6 +1929,10 @@ class Interp:
             r = self.world.call_value(self, f, args, kwargs, n)
             if r is not NotImplemented:
                 return r
+        if isinstance(f, Obj) and f.cls in self.prog.classes:
+            m = self.find_method(f.cls, "__call__")
+            if m is not None:
+                return self.call_function(FuncV(m, f, defcls=m.cls), list(args), dict(kwargs), n)
         raise self.err(n, f"call of {type(f).__name__}")
 
     def construct_generic(self, cv: ClassV, args, kwargs, node):
@@ -1966,6 +2046,17 @@ class Interp:
             if isinstance(v, Coll):
                 # members are non-empty tuples: truthy
                 return (v.card != 0) if name == "any" else True
+            if isinstance(v, LazyV):
+                # short-circuit: stop asking for items as soon as the answer is known
+                while True:
+                    ok, x = v.pull(self, n, fr)
+                    if not ok:
+                        return name == "all"
+                    t = self.truth(x, n, fr)
+                    if t and name == "any":
+                        return True
+                    if not t and name == "all":
+                        return False
             items = self.iterate(v, n, fr)
             syms = [x for x in items if isinstance(x, TV)]
             if len(syms) > 1 and all(self._is_scalar(x) for x in syms):
@@ -2016,6 +2107,8 @@ class Interp:
                                f"a single member is picked from the {v.domain} collection, which has "
                                f"{v.card} members: the result depends on insertion order", data=v.domain)
                 return IterV(list(v.members))
+            if isinstance(v, (LazyV, IterV, GenV)):
+                return v  # an iterator is its own iterator
             return IterV(self.iterate(v, n, fr))
         if name == "next":
             it = args[0]
@@ -2030,6 +2123,16 @@ class Interp:
             if isinstance(it, GenV):
                 if it.items:
                     return it.items.pop(0)
+                if len(args) > 1:
+                    return args[1]
+                raise Raised("StopIteration", n, fr.fi)
+            if isinstance(it, LazyV):
+                ok, x = it.pull(self, n, fr)
+                if ok:
+                    return x
+                if len(args) > 1:
+                    return args[1]
+                self.event("stop-iteration", n, "next() on an exhausted iterator")
                 raise Raised("StopIteration", n, fr.fi)
             raise self.err(n, "next() of a non-iterator")
         if name == "hasattr":
@@ -2064,6 +2167,8 @@ class Interp:
         if name == "property":
             fget = args[0] if args else kwargs.get("fget")
             return PropV(fget, False)
+        if name == "object":
+            return Obj("builtins:object", "<object>", kind="other")
         if name == "getattr":
             o, a = args[0], args[1]
             try:
@@ -2108,6 +2213,10 @@ class Interp:
         if name == "map":
             if len(args) == 2:
                 src = self._abstract_iter(args[1], n)
+                if isinstance(src, (list, tuple, dict, KeysV, IterV, GenV, LazyV)) and not isinstance(src, FamList) \
+                        and not any(isinstance(x, FamItem) for x in (src if isinstance(src, (list, tuple)) else ())):
+                    base = src if isinstance(src, (IterV, GenV, LazyV)) else IterV(self.iterate(src, n, fr))
+                    return LazyV("map", args[0], base, n)
                 if isinstance(src, Coll) and src.card == "many":
                     return FamList([FamItem(src.domain, self.call(args[0], [src.members[0]], {}, n, fr))])
                 items = self.iterate(src, n, fr)
@@ -2123,6 +2232,10 @@ class Interp:
             its = [self.iterate(a, n, fr) for a in args[1:]]
             return [self.call(args[0], list(xs), {}, n, fr) for xs in zip(*its)]
         if name == "filter":
+            if isinstance(args[1], (list, tuple, dict, KeysV, IterV, GenV, LazyV)) and not isinstance(args[1], FamList) \
+                    and not any(isinstance(x, FamItem) for x in (args[1] if isinstance(args[1], (list, tuple)) else ())):
+                base = args[1] if isinstance(args[1], (IterV, GenV, LazyV)) else IterV(self.iterate(args[1], n, fr))
+                return LazyV("filter", args[0], base, n)
             items = self.iterate(args[1], n, fr)
             if args[0] is None:
                 return [x for x in items if self.truth(x, n, fr)]
@@ -2418,6 +2531,14 @@ class Interp:
             import itertools as _it
 
             return list(_it.product(*[self.star_items(a, n, fr) for a in args]))
+        if name == "itertools.filterfalse":
+            pred = args[0]
+            out = []
+            for x in self.iterate(args[1], n, fr):
+                keep = self.truth(x, n, fr) if pred is None else self.truth(self.call(pred, [x], {}, n, fr), n, fr)
+                if not keep:
+                    out.append(x)
+            return IterV(out)
         if name == "itertools.cycle":
             items = self.iterate(args[0], n, fr)
             return IterV(items * 64)
@@ -2608,5 +2729,5 @@ PY_BUILTINS = {
     "len", "any", "all", "isinstance", "iter", "next", "hasattr", "getattr", "list",
     "tuple", "dict", "zip", "enumerate", "range", "float", "int", "bool", "abs", "round",
     "max", "min", "sum", "sorted", "reversed", "type", "str", "id", "print", "set",
-    "frozenset", "super", "map", "filter", "callable", "setattr", "delattr", "property",
+    "frozenset", "super", "map", "filter", "callable", "setattr", "delattr", "property", "object",
 }
